@@ -81,6 +81,21 @@ class SQLDumper(DumperBase):
         self.batch_size = options.get('batch_size', 1000)
         self.use_bloom_filter = options.get('use_bloom_filter', True)
 
+    def process_datapackage(self, datapackage):
+        datapackage = super(SQLDumper, self).process_datapackage(datapackage)
+        # The flags added to the rows are declared fields of the dumped resources
+        added = False
+        for resource in datapackage.descriptor.get('resources', []):
+            if resource['name'] in self.converted_resources:
+                names = [f['name'] for f in resource.get('schema', {}).get('fields', [])]
+                for name, type_ in ((self.updated_column, 'boolean'), (self.updated_id_column, 'any')):
+                    if name and name not in names:
+                        resource['schema']['fields'].append(dict(name=name, type=type_))
+                        added = True
+        if added:
+            datapackage.commit()
+        return datapackage
+
     def normalize_for_engine(self, dialect, resource, schema_descriptor):
         actions = {}
         for field in schema_descriptor['fields']:
